@@ -205,3 +205,80 @@ def expr(c):
 
 K.FAMILIES["tarea"] = (gen_case, run_impl, expr)
 K.add_imports("Distrib", "Kinds", "TimeArea")
+
+
+def vol_trace(c):
+    """the water side of a run of the implementation: reply volumes and, after every operation, the volumes of the
+    declared contents, of what has arrived, of every bucket in transit and of what every arc has carried"""
+    R = Run(c)
+    out = []
+    for op in c["ops"]:
+        try:
+            rr = R.do(op)
+        except ZeroDivisionError:
+            return out + ["ZeroDivisionError"]
+        if rr is not None:
+            out.append(frac(rr["volume"]))
+        t = R.tank
+        q = t.internal_arc.queue
+        out.append((frac(t.storage["volume"]), frac(t.active_storage["volume"]), tuple(frac(q[k]["volume"]) for k in sorted(q) if frac(q[k]["volume"]) != 0 or k <= 1),
+                    tuple(frac(a.vqip_in["volume"]) for a, nb in R.outs + R.ins)))
+    return out
+
+
+def monitor_c20(rep, n, pid="C20"):
+    """C20 on the nodes built on a queue tank: the same Sewer / QueueGroundwater history (pushes through the time-area
+    diagram, abstractions, discharges, close-outs, overrides) under two pollutant configurations - different decay
+    parameters (incl. none at all), different concentrations in what is pushed and held - gives the same volumes
+    everywhere at every step."""
+    r = C.rng("mon_c20_tarea")
+    viol = 0
+    st = {"pairs": 0, "decays_vs_none": 0, "with_delay_of_2_or_more": 0, "violations": 0}
+    for ci in range(n):
+        c = gen_case(r, 10)
+        if c["cls"] != "QueueGroundwater" and ci % 3:
+            c["cls"] = "QueueGroundwater"
+            c["ops"] = [op for op in c["ops"] if op[0] != "pushpipe"] or [("discharge",)]
+            for op in c["ops"]:
+                if op[0] == "override":
+                    op[1].pop("pt", None)
+        for a in c["outs"] + c["ins"]:
+            if a["nb"]["kind"] != "tank":       # neighbours whose answers depend on volumes only in both configurations
+                a["nb"] = {"kind": "tank", "cap": a["nb"]["lim"][0], "init": (F(0), [F(0)] * len(c["adds"]), [F(0)] * len(c["nons"]))}
+        part = K.Part(c["adds"], c["nons"])
+
+        def requality(v):
+            return (v[0], [F(r.randint(0, 9), 10) * v[0] for _ in v[1]], [F(r.randint(0, 30)) for _ in v[2]])
+        c2 = dict(c)
+        c2["init"] = requality(c["init"])
+        c2["ops"] = [(op[0], requality(op[1])) if op[0] in ("pushta", "pushpipe") else (op if op[0] != "pushcheck" or op[1] is None else (op[0], requality(op[1])))
+                     for op in c["ops"]]
+        c2["outs"] = [dict(a, nb=dict(a["nb"], init=requality(a["nb"]["init"]))) for a in c["outs"]]
+        c2["ins"] = [dict(a, nb=dict(a["nb"], init=requality(a["nb"]["init"]))) for a in c["ins"]]
+        if c["cls"] == "QueueGroundwater":
+            if not c["dec"] and c["adds"]:
+                c["dec"] = [(r.choice([F(1, 100), F(1, 2)]), r.choice([F(1), F(2)])) for _ in c["adds"]]
+            c2["dec"] = [] if r.random() < 0.6 else [(r.choice([F(0), F(1, 3)]), r.choice([F(1), F(3, 2)])) for _ in c["adds"]]
+            st["decays_vs_none"] += int(bool(c["dec"]) and not c2["dec"])
+        st["with_delay_of_2_or_more"] += int(any(k >= 2 for k, v in c["ta"]) or c["pt"] >= 2)
+        install_exact()
+        G.set_partition(c["adds"], c["nons"])
+        try:
+            C.arm(30)
+            a, b = vol_trace(c), vol_trace(c2)
+            st["pairs"] += 1
+            rep.add_eval(("mon_c20_tarea", ci), nontrivial=len(c["ops"]) >= 3)
+            if a != b:
+                viol += 1
+                i = next((k for k, (x, y) in enumerate(zip(a, b)) if x != y), min(len(a), len(b)))
+                if viol <= 3:
+                    rep.violation("counterexample", f"{pid} monitor ({c['cls']}): the same history under two pollutant configurations gives different "
+                                  f"volumes, first at trace entry {i}: {str(a[i] if i < len(a) else None)[:200]} vs {str(b[i] if i < len(b) else None)[:200]}",
+                                  {"family": "tarea", "case": K.case_json(c), "case_b": K.case_json(c2)}, True)
+        except C.TooSlow:
+            pass
+        finally:
+            C.disarm()
+            G.reset_partition()
+    st["violations"] = viol
+    rep.monitor[f"{pid}_queue_tank_nodes_paired"] = st
